@@ -707,7 +707,7 @@ pub fn drive_c16(a: &Args) {
         T::Star(bx(&T::Rng(pool.a, pool.c))),
     ];
     let mut pat = |rng: &mut Rng| -> T {
-        let n = rng.range(1, 4) as usize;
+        let n = rng.range(1, 6) as usize;
         let v: Vec<T> = (0..n).map(|_| rng.pick(&factors).clone()).collect();
         if v.len() == 1 {
             v[0].clone()
@@ -750,6 +750,57 @@ pub fn drive_c16(a: &Args) {
         };
         let mk = |v: Vec<T>| if v.len() == 1 { v[0].clone() } else { T::CatL(v) };
         pairs.push((mk(v), mk(w), "widening"));
+    }
+    // rigid / flexible structure: v = w1 . all . w2 . all . w3 with rigid words wi of length <= 2 over {a,b}
+    // (rigid prefix, interior rigid pattern, rigid suffix of every length 0..2) against rigid words
+    // u of length <= 4 and against u = x . all . y
+    {
+        let letters = [pool.a, pool.b];
+        let mut words: Vec<Vec<u32>> = vec![vec![]];
+        let mut fr: Vec<Vec<u32>> = vec![vec![]];
+        for _ in 0..4 {
+            let mut nx = vec![];
+            for w in &fr {
+                for &c in &letters {
+                    let mut x = w.clone();
+                    x.push(c);
+                    nx.push(x);
+                }
+            }
+            words.extend(nx.iter().cloned());
+            fr = nx;
+        }
+        let short: Vec<&Vec<u32>> = words.iter().filter(|w| w.len() <= 2).collect();
+        let chars = |w: &Vec<u32>| -> Vec<T> { w.iter().map(|&c| T::Chr(c)).collect() };
+        let mk = |parts: Vec<T>| -> T {
+            if parts.is_empty() { T::Eps } else if parts.len() == 1 { parts[0].clone() } else { T::CatL(parts) }
+        };
+        let mut k = 0usize;
+        for w1 in &short {
+            for w2 in &short {
+                for w3 in &short {
+                    let mut v = chars(w1);
+                    v.push(T::All);
+                    v.extend(chars(w2));
+                    v.push(T::All);
+                    v.extend(chars(w3));
+                    let vt = mk(v);
+                    for u in &words {
+                        k += 1;
+                        if !a.thorough() && k % 3 != (a.seed as usize) % 3 {
+                            continue;
+                        }
+                        pairs.push((mk(chars(u)), vt.clone(), "rigid-flexible"));
+                        if u.len() >= 2 && k % 5 == 0 {
+                            let mut uu = chars(&u[..1].to_vec());
+                            uu.push(T::All);
+                            uu.extend(chars(&u[1..].to_vec()));
+                            pairs.push((mk(uu), vt.clone(), "rigid-flexible"));
+                        }
+                    }
+                }
+            }
+        }
     }
     // sub-term pairs of random programs
     for _ in 0..a.sz(150, 2500) {
